@@ -213,6 +213,14 @@ def main():
                      "command_line": guarded(lambda: spec.resolveArguments(ignoreErrors=True)),
                      "memoization": [spec.memoization_hash, spec.memoization_hash_fuzzy]}
                 dump["components"][n] = d
+            # the same package as a PRIMITIVE configuration (no replication), resolved per component
+            def primitive():
+                pc = conf.ExperimentConfigurationFactory.configurationForExperiment(
+                    case["package"], platform=case.get("platform"), primitive=True, variable_files=case.get("variable_files") or None)
+                pcc = pc.get_flowir_concrete(return_copy=False)
+                return {"stage%d.%s" % cid: canon(pcc.get_component_configuration(cid, raw=False, include_default=True, is_primitive=True))
+                        for cid in sorted(pcc.get_component_identifiers(False))}
+            dump["primitive"] = guarded(primitive)
             dump["user"] = canon(g.configuration.get_user_variables())
             dump["global_variables"] = canon(g.configuration.get_global_variables())
             text = json.dumps(dump, sort_keys=True)
